@@ -436,12 +436,14 @@ func TestVerif_C17_Store(t *testing.T) {
 		defer os.RemoveAll(dir)
 		s, ln, err := c17NewStore(filepath.Join(dir, "node"))
 		if err != nil {
+			fmt.Fprintf(os.Stderr, "C17-SKIP store did not come up: %v\n", err)
 			rt.Skipf("single-node store did not come up: %v", err)
 		}
 		defer ln.Close()
 		defer s.Close(true)
 		ctx := context.Background()
 		if _, _, err := s.Execute(ctx, executeRequestFromStrings([]string{c17Schema, c17Rows}, false, false)); err != nil {
+			fmt.Fprintf(os.Stderr, "C17-SKIP setup failed: %v\n", err)
 			rt.Skipf("setup failed: %v", err)
 		}
 		snapDir := filepath.Join(dir, "snap")
@@ -571,4 +573,197 @@ func c17NewStore(dir string) (*Store, net.Listener, error) {
 		return nil, nil, err
 	}
 	return s, ln, nil
+}
+
+// ---------------------------------------------------------------------------
+// Unit ropool: the query endpoint under a saturated, bounded read-only pool.
+//
+// rqlited always bounds the read-only pool (-db-max-ro-conns). Here it is bounded to
+// 1-2 connections and every one of them is parked on a stalled reader (the ForceStall
+// fault-injection hook, i.e. a long-running client query) when a query-endpoint request
+// carrying a write arrives through DB.Query / Store.Query at none, weak or strong.
+// Oracle unchanged: content (and DB-applied index) must not change; being refused,
+// timing out or blocking until a reader finishes is fine.
+
+func c17ParkReaders(ctx context.Context, query func(context.Context, *proto.Request) error, k int) (wait func()) {
+	done := make(chan struct{}, k)
+	for i := 0; i < k; i++ {
+		go func() {
+			defer func() { done <- struct{}{} }()
+			query(ctx, &proto.Request{Statements: []*proto.Statement{{Sql: "SELECT 1", ForceStall: true}}})
+		}()
+	}
+	return func() {
+		for i := 0; i < k; i++ {
+			select {
+			case <-done:
+			case <-time.After(60 * time.Second):
+				return
+			}
+		}
+	}
+}
+
+// c17Saturated waits until a short probe query cannot get a read-only connection any more.
+func c17Saturated(query func(context.Context, *proto.Request) error) bool {
+	for i := 0; i < 100; i++ {
+		pctx, cancel := context.WithTimeout(context.Background(), 100*time.Millisecond)
+		err := query(pctx, &proto.Request{Statements: []*proto.Statement{{Sql: "SELECT 1"}}})
+		cancel()
+		if err != nil {
+			return true
+		}
+		time.Sleep(50 * time.Millisecond)
+	}
+	return false
+}
+
+func TestVerif_C17_ROPool(t *testing.T) {
+	rec := vstat.New(t, "C17", "ropool",
+		"rapid-seeded PCG: per case a database (DB alone or a single-node Store) whose read-only pool is bounded to 1-2 connections, all of them held by stalled readers (ForceStall), then 2 query-endpoint requests carrying writes (plain, disguised behind reads, write-then-read) via DB.Query or Store.Query at none/weak/strong with a 2.5 s budget; content and DB-applied index compared before/after; non-trivial = always (each request carries a write); distinct by target+level+text")
+	rapid.Check(t, func(rt *rapid.T) {
+		g := &c17Gen{rng: c17NewRng(rt, 171717)}
+		dir, err := os.MkdirTemp("", "c17p")
+		if err != nil {
+			rt.Skip(err)
+		}
+		defer os.RemoveAll(dir)
+		bound := 1 + g.rng.IntN(2)
+		target := g.of("db", "store")
+		ctx := context.Background()
+
+		var dbPath string
+		var stalled func(context.Context, *proto.Request) error // how a client query reaches the read-only pool
+		var attempt func(context.Context, *proto.Request, proto.ConsistencyLevel) error
+		var applied func() uint64
+		if target == "db" {
+			d, err := sql.Open(filepath.Join(dir, "c17.db"), false, true)
+			if err != nil {
+				rt.Skip(err)
+			}
+			defer d.Close()
+			d.SetMaxReadOnlyConns(bound)
+			for _, q := range []string{c17Schema, c17Rows} {
+				if _, err := d.ExecuteStringStmt(q); err != nil {
+					rt.Skip(err)
+				}
+			}
+			dbPath = d.Path()
+			stalled = func(c context.Context, r *proto.Request) error { _, err := d.QueryWithContext(c, r, false); return err }
+			attempt = func(c context.Context, r *proto.Request, _ proto.ConsistencyLevel) error {
+				_, err := d.QueryWithContext(c, r, false)
+				return err
+			}
+			applied = func() uint64 { return 0 }
+		} else {
+			if err := os.MkdirAll(filepath.Join(dir, "node"), 0o755); err != nil {
+				rt.Skip(err)
+			}
+			ln, err := net.Listen("tcp", "127.0.0.1:0")
+			if err != nil {
+				rt.Skip(err)
+			}
+			defer ln.Close()
+			s := New(&Config{DBConf: NewDBConfig(), Dir: filepath.Join(dir, "node"), ID: "n1"}, &mockLayer{ln})
+			if s == nil {
+				rt.Skip("store.New returned nil")
+			}
+			s.MaxReadOnlyConns = bound // what -db-max-ro-conns sets
+			if err := s.Open(); err != nil {
+				rt.Skip(err)
+			}
+			defer s.Close(true)
+			if err := s.Bootstrap(NewServer(s.ID(), s.Addr(), true)); err != nil {
+				rt.Skip(err)
+			}
+			if _, err := s.WaitForLeader(30 * time.Second); err != nil {
+				rt.Skip(err)
+			}
+			if _, _, err := s.Execute(ctx, executeRequestFromStrings([]string{c17Schema, c17Rows}, false, false)); err != nil {
+				rt.Skip(err)
+			}
+			dbPath = s.dbPath
+			stalled = func(c context.Context, r *proto.Request) error {
+				_, err := s.db.QueryWithContext(c, r, false)
+				return err
+			}
+			attempt = func(c context.Context, r *proto.Request, lvl proto.ConsistencyLevel) error {
+				_, _, _, err := s.Query(c, &proto.QueryRequest{Request: r, Level: lvl})
+				return err
+			}
+			applied = s.DBAppliedIndex
+		}
+		snapDir := filepath.Join(dir, "snap")
+		os.MkdirAll(snapDir, 0o755)
+		afterDir := filepath.Join(dir, "after")
+		os.MkdirAll(afterDir, 0o755)
+		levels := []proto.ConsistencyLevel{proto.ConsistencyLevel_NONE, proto.ConsistencyLevel_WEAK, proto.ConsistencyLevel_STRONG}
+
+		for i := 0; i < 2; i++ {
+			var tx c17Text
+			for tx = g.text(); tx.Kind == "read"; tx = g.text() {
+			}
+			lvl := levels[g.rng.IntN(len(levels))]
+			rec.Case(true, fmt.Sprintf("%s|%s|%q", target, lvl, tx.SQL))
+			rec.Sample(fmt.Sprintf("%s bound=%d level=%s %q", target, bound, lvl, tx.SQL))
+			rec.Label("target:" + target)
+			rec.Label("level:" + lvl.String())
+			rec.Label("text:" + tx.Kind)
+
+			before, err := c17Snap(dbPath, snapDir)
+			if err != nil {
+				rt.Skip(err)
+			}
+			idx0 := applied()
+
+			rctx, release := context.WithCancel(ctx)
+			waitReaders := c17ParkReaders(rctx, stalled, bound)
+			if !c17Saturated(stalled) {
+				release()
+				waitReaders()
+				rec.Label("pool:not-saturated")
+				continue
+			}
+			rec.Label("pool:saturated")
+			req := &proto.Request{Statements: []*proto.Statement{{Sql: tx.SQL}}}
+			if g.pct(80) {
+				c17Preprocess(req, "query", lvl == proto.ConsistencyLevel_STRONG)
+			}
+			actx, acancel := context.WithTimeout(ctx, 2500*time.Millisecond)
+			finished := make(chan error, 1)
+			go func() { finished <- attempt(actx, req, lvl) }()
+			returned := false
+			select {
+			case <-finished:
+				returned = true
+				rec.Label("attempt:returned-while-saturated")
+			case <-time.After(3 * time.Second):
+				rec.Label("attempt:blocked-until-readers-left")
+			}
+			release() // the stalled readers go away
+			waitReaders()
+			if !returned {
+				// e.g. a strong read waiting in the apply loop for a read-only connection: it may now complete
+				select {
+				case <-finished:
+				case <-time.After(60 * time.Second):
+					acancel()
+					rt.Skipf("query attempt did not return after the readers left")
+				}
+			}
+			acancel()
+			after, err := c17Snap(dbPath, afterDir)
+			if err != nil {
+				rt.Skip(err)
+			}
+			if after != before || applied() != idx0 {
+				sig := "C17/query-endpoint-modified-db{pool=saturated}"
+				if rec.KnownHit(sig, "with every read-only connection busy a query-endpoint request is run on the read-write connection") {
+					return
+				}
+				rt.Fatalf("%s", rec.Violation(sig, "%s query at level %s of %q, sent while all %d read-only connection(s) were held by stalled readers, changed the database (DB-applied index %d -> %d):\nbefore:\n%s\nafter:\n%s",
+					target, lvl, tx.SQL, bound, idx0, applied(), before, after))
+			}
+		}
+	})
 }
